@@ -59,13 +59,18 @@ Qed.
 Lemma str_leb_trans a : forall b c, str_leb a b = true -> str_leb b c = true -> str_leb a c = true.
 Proof.
   induction a as [|x a IH]; intros [|y b] [|z c]; cbn [str_leb]; try discriminate; auto.
-  destruct (x <? y) eqn:E1; destruct (y <? x) eqn:E2; destruct (y <? z) eqn:E3; destruct (z <? y) eqn:E4;
-    try discriminate; intros H1 H2;
-    rewrite ?N.ltb_lt, ?N.ltb_ge in *.
-  all: try (assert (X : (x <? z) = true) by (apply N.ltb_lt; lia); rewrite X; reflexivity).
-  - lia.
-  - assert (x = y) by lia. assert (y = z) by lia. subst.
-    rewrite N.ltb_irrefl. apply (IH b c); assumption.
+  intros H1 H2.
+  destruct (x <? y) eqn:E1.
+  - apply N.ltb_lt in E1. destruct (y <? z) eqn:E3.
+    + apply N.ltb_lt in E3. assert (X : (x <? z) = true) by (apply N.ltb_lt; lia). rewrite X. reflexivity.
+    + destruct (z <? y) eqn:E4; [discriminate H2|].
+      apply N.ltb_ge in E3. apply N.ltb_ge in E4.
+      assert (X : (x <? z) = true) by (apply N.ltb_lt; lia). rewrite X. reflexivity.
+  - destruct (y <? x) eqn:E2; [discriminate H1|].
+    apply N.ltb_ge in E1. apply N.ltb_ge in E2. assert (x = y) by lia. subst y.
+    destruct (x <? z) eqn:E3; [reflexivity|].
+    destruct (z <? x) eqn:E4; [discriminate H2|].
+    apply (IH b c); assumption.
 Qed.
 
 Fixpoint insert_str (x : str) (l : list str) : list str :=
